@@ -410,9 +410,9 @@ def main(argv=None) -> int:
             path = existing or os.path.relpath(_write_replay(prop, v, seed, args.tier, part),
                                                core.VERIF)
             msg = v["message"].strip().splitlines()
-            out(f"  {v['check']}: {msg[0] if msg else ''}")
+            out(f"  {v['check']}: {(msg[0] if msg else '')[:1500]}")
             for extra_line in msg[1:8]:
-                out(f"    {extra_line}")
+                out(f"    {extra_line[:1500]}")
             out(f"VIOLATION property={prop} replay={path}")
         return 1
     if errors:
